@@ -160,6 +160,35 @@ pub fn worker(a: &[String]) -> i32 {
     0
 }
 
+/// args: PROP n fwd|rev — print the run fingerprint of the first n cases of every stratum, executed
+/// in forward or reverse order (determinism protocol: the two outputs must be identical once sorted)
+pub fn fingerprints(a: &[String]) -> i32 {
+    let def = fw::find_prop(&a[0]).expect("unknown property");
+    let n: u64 = a[1].parse().unwrap();
+    let rev = a.get(2).map(|s| s == "rev").unwrap_or(false);
+    let seed = env_u64("VERIF_SEED", 1);
+    let mut cases: Vec<(usize, u64)> = Vec::new();
+    for (sid, st) in def.strata.iter().enumerate() {
+        for idx in 0..n.min(st.quick) {
+            cases.push((sid, idx));
+        }
+    }
+    if rev {
+        cases.reverse();
+    }
+    let mut out = Vec::new();
+    for (sid, idx) in cases {
+        let cs = case_seed(seed, def.id, def.strata[sid].name, idx);
+        let rep = exec_case(def, CaseSpec { prop: def.id, stratum: sid, idx, seed: cs, tier: Tier::Quick, replay: None, record: false, trace: false, want_sample: false, shared_rec: None });
+        out.push(format!("{} {} {:016x} {}", def.strata[sid].name, idx, rep.fingerprint(), rep.keys().join(",")));
+    }
+    out.sort();
+    for l in out {
+        println!("{l}");
+    }
+    0
+}
+
 // ------------------------------------------------------------------------------------------------
 // one / replay
 // ------------------------------------------------------------------------------------------------
